@@ -1095,6 +1095,12 @@ class VWorld:
     def something_can_happen(self) -> bool:
         if self.frozen:
             return False
+        if self.sched is not None:
+            # threaded mode: another helper thread that is still alive (parked by the scheduler) may
+            # hold a result it has already taken from the queue - that is progress still to come
+            me = self.sched.current_helper()
+            if any(h is not me for h in self.sched.live()):
+                return True
         for ch in self.children:
             if ch.state == 'running' and (getattr(ch, 'doomed', False) or ch.self_killed or ch.result_put_index(self) is not None):
                 if self.blocked_in_put(ch):
